@@ -257,6 +257,12 @@ impl<'a, 'b: 'a, R: Read> RowParser<'a, 'b, R> {
                 break;
             }
 
+            if self.parser.lexer.cur.value.is_none() {
+                // End of input also terminates the last row
+                row_terminated = true;
+                break;
+            }
+
             let val = self.parser.parse_value()?;
             let Some(col) = cols.get(col_num) else {
                 return self
